@@ -113,6 +113,36 @@ def classify(verdict, feats):
     return None
 
 
+def norm_order(s):
+    """sort the `;`-separated items of every `{...}` group (instance/component item lists), recursively.
+    Used only for cases with a dependency package: the decoder lists the exports of a decoded interface in the
+    order of the reference toolchain's binary (types before functions), not in source order; the order of
+    instance exports carries no meaning."""
+    out, i = [], 0
+    while i < len(s):
+        if s[i] == "{":
+            d, j = 1, i + 1
+            while d:
+                d += {"{": 1, "}": -1}.get(s[j], 0); j += 1
+            inner = norm_order(s[i + 1:j - 1])
+            items, cur, dd = [], [], 0
+            for ch in inner:
+                if ch in "{(":
+                    dd += 1
+                elif ch in "})":
+                    dd -= 1
+                if ch == ";" and dd == 0:
+                    items.append("".join(cur)); cur = []
+                else:
+                    cur.append(ch)
+            items.append("".join(cur))
+            out.append("{" + ";".join(sorted(items)) + "}")
+            i = j
+        else:
+            out.append(s[i]); i += 1
+    return "".join(out)
+
+
 def dec(s):
     return "" if s in ("-", "") else "".join(chr(int(x)) for x in s.split(","))
 
@@ -189,7 +219,7 @@ def run(res, tier, seed, replay):
     known_hits = {}
     disagreements, spec_fail, ref_fail = [], [], []
     stats = dict(pkg=0, neg=0, ref_ok=0, ref_skip=0, wp_ok=0, wp_skip=0, interfaces=0, worlds=0, impl_ok=0, impl_err=0,
-                 impl_panic=0, strict_worlds=0)
+                 impl_panic=0)
     errclasses = {}
     nontrivial = set()
     featcount = {}
@@ -201,6 +231,10 @@ def run(res, tier, seed, replay):
         for x in feats:
             featcount[x] = featcount.get(x, 0) + 1
         mobs = mf[0]; den = mf[1] if len(mf) > 1 else "?"
+        if len(cf) > 5 and cf[5] not in ("-", ""):
+            stats["with_dependency_package"] = stats.get("with_dependency_package", 0) + 1
+            # trees only (the uses/ids part follows ` ## ` and has no braces)
+            obs, mobs, den = norm_order(obs), norm_order(mobs), norm_order(den)
         # (a) correspondence model <-> implementation.  A Rust panic carries its message; the model only its site.
         o1 = "PANIC" if obs.startswith("PANIC") else obs
         m1 = "PANIC" if mobs.startswith("PANIC") else mobs
@@ -254,9 +288,9 @@ def run(res, tier, seed, replay):
                     ref_fail.append((c, obs, v, feats))
             if not bad and refv.startswith("REF-OK") and wpv.startswith("WP-OK"):
                 if " use " in dec(cf[2]) or "resource" in dec(cf[2]):
-                    nontrivial.add(cid)
+                    nontrivial.add(cf[2])
         elif obs.startswith("ERR") or obs.startswith("PANIC"):
-            nontrivial.add(cid)
+            nontrivial.add(cf[2])
 
     res.coverage.update(dict(
         correspondence_cases=len(cases), corpus_cases=ncorpus, evaluations=len(cases), disagreements=len(disagreements),
